@@ -435,6 +435,22 @@ class RenderContext:
             # Also when `extend` itself refuses (context depth limit).
             self.loops.pop()
 
+    @contextmanager
+    def loop_carry(self, length: int) -> Iterator[RenderContext]:
+        """Count _length_ iterations of a loop that has no `ForLoop` on the loop stack.
+
+        `include ... for`, `render ... for` and `tablerow` iterate without pushing a
+        loop frame. Loops nested inside them, including loops in templates they render,
+        must still be multiplied by their length when checking the loop iteration limit.
+        """
+        self.raise_for_loop_limit(length)
+        carry = self.loop_iteration_carry
+        self.loop_iteration_carry = carry * max(length, 1)
+        try:
+            yield self
+        finally:
+            self.loop_iteration_carry = carry
+
     def parentloop(self, token: TokenT) -> Undefined | object:
         """Return the last ForLoop object from the loop stack."""
         try:
